@@ -533,6 +533,51 @@ func exec(c vh.Case, o *vh.Out) {
 				}
 			}
 			if err == nil {
+				// every OnMissing / OnError handler that was installed is told every failed CID, whatever comes
+				// later in the option list: handler i sees the error as left by the options before it
+				for v := range rec.visited {
+					kind := kindOf(nodes, v)
+					if kind == "ok" {
+						continue
+					}
+					wantOE := map[string]int{}
+					wantOM := 0
+					for i, h := range hs {
+						reach := kind
+						if i > 0 {
+							reach = chainMeaning(hs[:i], kind)
+						}
+						switch h {
+						case "oe0", "oe1", "oe2":
+							wantOE[reach]++
+						case "om":
+							if reach == "nf" {
+								wantOM++
+							}
+						}
+					}
+					gotOM := 0
+					for _, m := range rec.missing {
+						if m == v {
+							gotOM++
+						}
+					}
+					if gotOM < wantOM {
+						o.Fail("handler-not-told", "OnMissing callbacks were told %d times about missing %d, %d installed handlers must hear of it (options %v)", gotOM, v, wantOM, hs)
+					}
+					gotOE := map[string]int{}
+					for _, e := range rec.onerr {
+						kv := strings.SplitN(e, ":", 2)
+						if vh.Atoi(kv[0]) == v {
+							gotOE[kv[1]]++
+						}
+					}
+					for cl, n := range wantOE {
+						if gotOE[cl] < n {
+							o.Fail("handler-not-told", "OnError handlers were told %d times about %d with error class %s, want %d (options %v)", gotOE[cl], v, cl, n, hs)
+						}
+					}
+				}
 				if len(aborts) > 0 {
 					o.Fail("error-lost", "walk returned nil although a reachable node fails with a surviving error")
 				}
